@@ -29,7 +29,7 @@ Definition clean0 (self : tree) (o : op0) : bool :=
   | ORename _ new _ => Nat.eqb (List.length new) 1
   | OBatchSize _ _ => hollow_free self
   | OUnflatten sep => forallb (fun k => negb (C04_Tree.str_contains sep k)) (node_keys self)
-  | OAutoBS _ | OSelect _ _ | OExclude _ | OFlatten _ => false
+  | OAutoBS _ => false
   | _ => true
   end.
 
